@@ -150,6 +150,22 @@ func Compare(im Impl, m Model) []Diff {
 		implClass = "err"
 	}
 	// the model's `ok` covers the pipeline up to the function blocks; base-code / formatting failures come later
+	// failures after the function blocks are built (imports.Process / format.Source / write) are outside this model's `ok`
+	late := implClass == "err" && m.Kind == "ok" && (strings.Contains(im.Stderr, "error on optimizing imports") ||
+		strings.Contains(im.Stderr, "error on formatting") || strings.Contains(im.Stderr, "error on writing"))
+	if late {
+		cut := im.Stderr
+		for _, marker := range []string{"error on optimizing imports", "error on formatting", "error on writing"} {
+			if i := strings.Index(cut, marker); i >= 0 {
+				cut = cut[:i]
+			}
+		}
+		is := NormStderr(cut)
+		if strings.Join(is, "\n") != strings.Join(m.Stderr, "\n") {
+			ds = append(ds, Diff{"stderr lines (before the late failure)", strings.Join(m.Stderr, "\n"), strings.Join(is, "\n")})
+		}
+		return ds
+	}
 	if m.Kind != implClass {
 		ds = append(ds, Diff{"outcome class", m.Kind + " " + m.Msg, fmt.Sprintf("%s (status %d)", implClass, im.Status)})
 		return ds
